@@ -3,7 +3,8 @@
 # /venv pins six==1.10 whose six.moves does not import on py3.12; the overlay shadows it with six 1.17
 # and adds z3-solver (+cvc5 when available). /venv and /repo are not modified.
 set -e
-V=/verif/.venv
+D=$(cd "$(dirname "$0")/.." && pwd)
+V="$D/.venv"
 STAMP="$V/.ok3"
 if [ -f "$STAMP" ] && "$V/bin/python" -c 'import z3, six, six.moves' >/dev/null 2>&1; then exit 0; fi
 (
@@ -18,4 +19,4 @@ if [ -f "$STAMP" ] && "$V/bin/python" -c 'import z3, six, six.moves' >/dev/null 
   PIP_NO_INDEX=1 "$V/bin/pip" install -q --no-index --find-links /opt/veriftools/wheels cvc5 >/dev/null 2>&1 || true
   "$V/bin/python" -c 'import z3, six, six.moves; import google.protobuf'
   touch "$STAMP"
-) 9>/verif/.venv.lock
+) 9>"$D/.venv.lock"
